@@ -8,13 +8,13 @@ from ..tree import Arr, Frame, Raised, dtype_kind
 # kinds: f float64, i int64, b bool, T string (StringDType), U fixed-width string, D date, us datetime, O object
 KIND_DTYPE = {"f": "float64", "i": "int64", "b": "bool", "T": "string", "U": "<U%d" % symx.STR_K,
               "D": "datetime64[D]", "us": "datetime64[us]", "s": "datetime64[s]", "O": "object", "td": "timedelta64[us]",
-              "ns": "datetime64[ns]"}
+              "ns": "datetime64[ns]", "m": "datetime64[m]"}
 
 # datetime ticks are assumed within years 1..9999 (as in the property statements)
 _DAY_LO, _DAY_HI = -719162, 2932896
 _RANGE = {"D": (_DAY_LO, _DAY_HI), "s": (_DAY_LO * 86400, _DAY_HI * 86400 + 86399),
           "us": (_DAY_LO * 86400 * 10**6, (_DAY_HI * 86400 + 86399) * 10**6 + 999999),
-          "td": (-10**15, 10**15),
+          "td": (-10**15, 10**15), "m": (_DAY_LO * 1440, _DAY_HI * 1440 + 1439),
           "ns": (-9 * 10**18, 9 * 10**18)}          # datetime64[ns] (what pandas hands over): years 1685..2255
 
 def sym_cell(kind, tag, allow_na=True):
